@@ -394,6 +394,15 @@ func oddBranchLeaf(v ssa.Value) string {
 		if call, ok := x.Tuple.(*ssa.Call); ok && strings.HasPrefix(calleeName(&call.Call), "strconv.Parse") {
 			return ""
 		}
+		// the result of a parsing helper of this repository: what it returns in that position
+		if rs := helperResults(x); len(rs) > 0 {
+			for _, r := range rs {
+				if why := oddBranchLeaf(r); why != "" {
+					return why
+				}
+			}
+			return ""
+		}
 	case *ssa.Phi:
 		for _, e := range x.Edges {
 			if k, ok := e.(*ssa.Const); ok && isIntConst(k) {
